@@ -212,7 +212,8 @@ class ClusterPlay:
         z = rng.choice(self.byz)
         vmax = max(self.view.values())
         views = sorted(set(self.view.values()))
-        kind = rng.choice(["vote-all", "propose", "propose", "equivocate", "fork", "fork", "timeout", "future-timeout", "stale-propose"])
+        kind = rng.choice(["vote-all", "propose", "propose", "equivocate", "fork", "fork", "timeout", "future-timeout", "stale-propose",
+                           "lagging-vote", "lagging-vote", "catch-up"])
         lead_views = [v for v in range(min(views), vmax + 3) if self.leader(v) == z]
         if self.leader(vmax) in self.byz and rng.random() < 0.6:
             # everybody waits for a Byzantine leader: it usually does propose (something)
@@ -243,6 +244,30 @@ class ClusterPlay:
             else:
                 tg = [t for t in self.nodes if rng.random() < 0.8] or self.nodes[:1]
                 self.byz_propose(z, v, parent, tg)
+        elif kind == "lagging-vote":
+            # a replica that missed the last views gets the newest proposal while it can fetch only that
+            # proposal's parent (not the grandparent it would have to lock on)
+            lag = min(self.nodes, key=lambda i: self.view[i])
+            recent = sorted((b for b in self.blocks if b != "G"), key=lambda b: self.blocks[b][0])[-3:]
+            if recent:
+                b = rng.choice(recent)
+                par = self.blocks[b][1]
+                self.say(f"fetch {lag} off")
+                if par != "G":
+                    self.say(f"@{lag} fetchable {par} on")
+                self.say(f"@{lag} deliver propose {b} from={self.blocks[b][2]}")
+                if rng.random() < 0.5:
+                    self.say(f"fetch {lag} on")
+        elif kind == "catch-up":
+            # bring a lagging replica forward with certificates seen on the wire (new-view messages)
+            lag = min(self.nodes, key=lambda i: self.view[i])
+            cert = sorted((b for b in self.blocks if b in self.qcname and b != "G"), key=lambda b: self.blocks[b][0])
+            if cert:
+                b = cert[-1]
+                x = self.fresh("nv")
+                self.say(f"si {x} qc={self.qcname[b]} tc=- agg=-")
+                for _ in range(rng.randrange(1, 4)):
+                    self.say(f"@{lag} deliver newview {x} from={z}")
         elif kind == "timeout":
             self.byz_timeout(z, rng.choice(views), self.nodes)
         elif kind == "future-timeout":
